@@ -76,6 +76,7 @@ extern "C" void h_uf_shared_secret(ephemeralnet::crypto::Key* out, std::uint32_t
 using namespace ephemeralnet;
 namespace {
 constexpr long long kNs = 1000000000LL;
+template <class N> void init_handshake_mutex(N* n) { if constexpr (requires { n->handshake_mutex_; }) new (&n->handshake_mutex_) std::decay_t<decltype(n->handshake_mutex_)>(); }
 struct PartialNode {
     alignas(Node) unsigned char raw[sizeof(Node)];
     Node* node() { return reinterpret_cast<Node*>(raw); }
@@ -86,6 +87,7 @@ struct PartialNode {
         new (&n->key_manager_) network::KeyManager(std::chrono::seconds(300));
         new (&n->reputation_) network::ReputationManager();
         new (&n->handshake_state_) decltype(n->handshake_state_)();
+        init_handshake_mutex(n);   // present once handshake_state_ has its own lock
         new (&n->pow_counters_) Node::PowCounters();
         n->identity_scalar_ = 12345u; n->identity_public_ = network::KeyExchange::compute_public(12345u);
     }
@@ -171,7 +173,7 @@ extern "C" void h_c36_locksets(unsigned long) {
     PartialNode pn; Node* n = pn.node();
     n->config_.handshake_pow_difficulty = 0; n->config_.handshake_cooldown = std::chrono::seconds(nondet_u8("cooldown_s") & 15);
     verif_env::start_clock();
-    verif_lock_name(&g_node_mutex, "node_mutex");
+    verif_lock_name(&g_node_mutex, "node_mutex"); new (&n->scheduler_mutex_) std::recursive_mutex(); verif_lock_name(&n->scheduler_mutex_, "scheduler_mutex_");
     verif_watch(&n->key_manager_, sizeof n->key_manager_, "Node::key_manager_");
     verif_watch(&n->handshake_state_, sizeof n->handshake_state_, "Node::handshake_state_");
     verif_watch(&n->reputation_, sizeof n->reputation_, "Node::reputation_");
@@ -185,6 +187,9 @@ extern "C" void h_c36_locksets(unsigned long) {
         (void)n->session_shared_key(remote_id());
         verif_context("tick-thread");
         { std::scoped_lock lock(g_node_mutex); n->rotate_session_keys(std::chrono::steady_clock::now()); }
+        // the serve loop also handshakes: tick -> process_pending_fetches -> dispatch_pending_fetch -> request_chunk -> ensure_bootstrap_handshake
+        // -> perform_handshake, under the node mutex and the scheduler mutex
+        { std::scoped_lock lock(g_node_mutex); std::unique_lock<std::recursive_mutex> sched(n->scheduler_mutex_); (void)n->perform_handshake(remote_id(), nondet_u32("bootstrap_public"), nondet_u64("bootstrap_nonce")); }
         verif_context("control-thread");
         { std::scoped_lock lock(g_node_mutex); (void)n->session_key(remote_id()); }
         verif_context("");
@@ -199,7 +204,8 @@ extern "C" void h_c36_tsan(unsigned long) {
     (void)n->perform_handshake(remote_id(), 7, 1);
     std::thread accept([&] { for (int i = 0; i < 400; ++i) (void)n->perform_handshake(remote_id(), 7 + static_cast<std::uint32_t>(i % 5), 1); });
     std::thread reader([&] { for (int i = 0; i < 400; ++i) (void)n->session_shared_key(remote_id()); });
-    std::thread serve([&] { for (int i = 0; i < 400; ++i) { std::scoped_lock lock(g_node_mutex); n->rotate_session_keys(std::chrono::steady_clock::now()); (void)n->session_key(remote_id()); } });
+    new (&n->scheduler_mutex_) std::recursive_mutex();
+    std::thread serve([&] { for (int i = 0; i < 400; ++i) { std::scoped_lock lock(g_node_mutex); n->rotate_session_keys(std::chrono::steady_clock::now()); (void)n->session_key(remote_id()); std::unique_lock<std::recursive_mutex> sched(n->scheduler_mutex_); (void)n->perform_handshake(remote_id(), 9 + static_cast<std::uint32_t>(i % 3), 1); } });
     accept.join(); reader.join(); serve.join();
     std::printf("TSAN-RUN-DONE\n");
 }
